@@ -262,6 +262,8 @@ func invalidate(kit *bk.Kit) {
 	}
 }
 
+var sendSeq int
+
 func sendOne(t vt.TB, kit *bk.Kit, mm *gostatsd.MetricMap, j *journal) {
 	done := make(chan []error, 4)
 	type outcome struct {
@@ -277,7 +279,15 @@ func sendOne(t vt.TB, kit *bk.Kit, mm *gostatsd.MetricMap, j *journal) {
 			}
 			ret <- outcome{}
 		}()
-		kit.Backend.SendMetricsAsync(context.Background(), mm, func(errs []error) {
+		// one flush in eight is given a context that is already done (a flush overtaken by shutdown or its deadline): the
+		// payload is still built, every hand-off inside the backend sees the finished context
+		ctx := context.Background()
+		if sendSeq++; sendSeq%8 == 0 {
+			c, cancel := context.WithCancel(ctx)
+			cancel()
+			ctx = c
+		}
+		kit.Backend.SendMetricsAsync(ctx, mm, func(errs []error) {
 			done <- errs
 		})
 	}()
